@@ -27,6 +27,8 @@ def run(spec):
     notes = []
 
     # 1. proof obligations -------------------------------------------------------------
+    for g in spec.get('translators', []):
+        sh(['python3', os.path.join(HERE, 'tools', 'translate', g)])
     ok_build, build_log = lean_build()
     audit = {'obligations': 0, 'discharged': 0, 'problems': ['lake build failed'], 'theorems': [],
              'checker_cmd': f'cd {LEAN} && lake build'}
@@ -52,20 +54,44 @@ def run(spec):
         finish(prop, [f'VIOLATION property={prop} replay={p} no-failing-input-found'], [])
 
     # 3. correspondence + monitors -------------------------------------------------------
+    batches = spec.get('batches') or [dict(model=spec['model'], gen=spec['gen'], quick=spec['quick'],
+                                            thorough=spec['thorough'], extra=spec.get('extra', spec['thorough']))]
+    default_model = batches[0]['model']
+
+    def model_of(case_text):
+        m = re.search(r'^case \S+.*\bmodel=(\S+)', case_text.split('\n')[0])
+        return m.group(1) if m else default_model
+
+    def run_cases(cs, tag):
+        out = [None] * len(cs)
+        by = {}
+        for i, c in enumerate(cs):
+            by.setdefault(model_of(c), []).append(i)
+        for mdl, idx in by.items():
+            res = run_e1(hbin, mdl, [cs[i] for i in idx], tag=tag + mdl)
+            for i, r in zip(idx, res):
+                out[i] = r
+        return out
+
     cases = []
     corpus_dir = os.path.join(HERE, 'corpus', prop)
     corpus = sorted(glob.glob(os.path.join(corpus_dir, '*.case')))
     if replay:
         txt = open(replay).read()
+        try:
+            txt = json.loads(txt).get('case', txt)
+        except Exception:
+            pass
         m = re.search(r'(case .*?endcase)', txt, flags=re.S)
         cases = [m.group(1) if m else txt]
     else:
         for c in corpus:
             cases.append(open(c).read().strip())
-        n = spec['thorough'] if tr == 'thorough' else spec['quick']
-        for i in range(n):
-            cases.append(spec['gen'](rng, f's{base_seed}n{i}'))
-    results = run_e1(hbin, spec['model'], cases, tag=prop)
+        for bi, b in enumerate(batches):
+            n = b['thorough'] if tr == 'thorough' else b['quick']
+            for i in range(n):
+                cases.append(b['gen'](rng, f's{base_seed}b{bi}n{i}'))
+    results = run_cases(cases, prop)
     kinds = {'pass': 0, 'monitor': 0, 'tie': 0}
     bad = []
     for c, r in zip(cases, results):
@@ -76,8 +102,8 @@ def run(spec):
     extra_run = 0
     if (not proof_ok or kinds['tie'] > 0) and kinds['monitor'] == 0 and not replay:
         # a proof obligation or the correspondence is broken: search harder for a concrete failure
-        ecases = [spec['gen'](rng, f'x{base_seed}n{i}') for i in range(spec.get('extra', spec['thorough']))]
-        eres = run_e1(hbin, spec['model'], ecases, tag=prop + 'x')
+        ecases = [b['gen'](rng, f'x{base_seed}b{bi}n{i}') for bi, b in enumerate(batches) for i in range(b.get('extra', b['thorough']))]
+        eres = run_cases(ecases, prop + 'x')
         extra_run = len(ecases)
         for c, r in zip(ecases, eres):
             k = classify(r)
@@ -115,7 +141,7 @@ def run(spec):
         if ties:
             k, c, r = ties[0]
             p = write_replay(prop, f'tie-{base_seed}.json',
-                             {'property': prop, 'kind': 'tie', 'correspondence': spec.get('corr_name', f'E1 log of {spec["harness"]} accepted by Lean model {spec["model"]}'),
+                             {'property': prop, 'kind': 'tie', 'correspondence': spec.get('corr_name', f'E1 log of {spec["harness"]} accepted by Lean model {model_of(c)}'),
                               'first_divergence': r['verdict'], 'case': c, 'impl_history': r['raw'],
                               'diverging_cases': len(ties), 'searched_cases': len(cases) + extra_run})
             violations.append(f'VIOLATION property={prop} replay={p} no-failing-input-found')
